@@ -8,7 +8,7 @@
    specification checker the implementation is judged by.
    What is NOT proved: completeness of rdflib's _TripleCanonicalizer (see
    [C14_complete_statement]); the differential runs are the only evidence. *)
-From RV Require Import Iso.Model Iso.Proofs Iso.Skolem.
+From RV Require Import Iso.Model Iso.Proofs Iso.Skolem Iso.Canon Iso.CanonInst.
 
 (* The verified oracle: the backtracking search answers true exactly when some
    renaming, one-to-one on the blank nodes of g1, maps the set g1 onto g2. *)
@@ -117,11 +117,17 @@ Proof.
 Qed.
 Print Assumptions C14_skolem_roundtrip_external.
 
-(* The tie: what the correspondence check evaluates on the implementation's
-   answers is satisfied by the model on every case outside finding FC14a. *)
-Theorem C14_spec_ok_model : forall c, kf c = 0%N -> spec_ok c (model_obs c) = true.
+(* GLUE, not a statement about compare.py: outside finding FC14a the expected
+   observation of suite "iso" is the verified ORACLE's answer (plus one valid choice
+   of canonical graphs), and that answer passes the oracle-based checker.  The
+   suite is differential testing of rdflib against the oracle; the theorems about
+   the transcription of compare.py are further down (C14_canonical_triples_relabels,
+   C14_model_isomorphic_sound, C14_refine_invariant, C14_label_independent_partial). *)
+Theorem C14_spec_ok_model_glue : forall c, kf c = 0%N -> spec_ok c (model_obs c) = true.
 Proof. exact spec_ok_model. Qed.
-Print Assumptions C14_spec_ok_model.
+(* (inside the region of FC14a the expected observation is marked "verdicts not
+   determined" - see Iso/Model.v kf - and only rdflib's own answer is judged) *)
+Print Assumptions C14_spec_ok_model_glue.
 
 (* Prop-level readings of the checker *)
 Theorem C14_spec_verdicts_reading : forall c o,
@@ -154,12 +160,21 @@ Theorem C14_spec_skolem_reading : forall c o,
 Proof. exact spec_skolem_reading. Qed.
 Print Assumptions C14_spec_skolem_reading.
 
-(* Finding FC14a: in the trigger region the graphs ARE isomorphic, the model
-   (like the implementation) answers false, and the checker rejects that. *)
+(* Finding FC14a (a blank node as predicate), trigger = some triple has a
+   blank-node predicate and the graphs are isomorphic: the graphs {_:0 _:1 _:2 . _:2 <3> <4>} and a relabelled
+   copy ARE isomorphic, the canonicaliser model (instance with the hash in N
+   arithmetic; rdflib likewise) answers False, and the checker rejects an
+   observation with that verdict. *)
 Theorem C14_blank_predicate_refuted :
-  exists c, kf c = 1%N /\ iso (c_g1 c) (c_g2 c) /\ o_iso (model_obs c) = false
-            /\ spec_ok c (model_obs c) = false.
-Proof. exact leak_refuted. Qed.
+  exists c, kf c = 1%N /\ iso (c_g1 c) (c_g2 c)
+            /\ isoN_i (c_g1 c) (c_g2 c) = Some false
+            /\ spec_ok c (model_obs_with false c) = false.
+Proof.
+  exists {| c_g1 := [(Blank 0, Blank 1, Blank 2); (Blank 2, Const 3, Const 4)];
+            c_g2 := [(Blank 5, Blank 6, Blank 7); (Blank 7, Const 3, Const 4)] |}%N.
+  split; [reflexivity|]. split; [apply iso_dec_correct; vm_compute; reflexivity|].
+  split; vm_compute; reflexivity.
+Qed.
 Print Assumptions C14_blank_predicate_refuted.
 
 (* non-vacuity: two 6-cycles with different labels are isomorphic, a 6-cycle and
@@ -184,9 +199,9 @@ Qed.
    the concrete [safe] predicate on ids implies the side condition of the
    round-trip theorem, so the hypotheses it replays are the theorem's. *)
 From RV Require Import Iso.SkolemCheck.
-Theorem C14_skolem_suite_model : forall c, sk_spec_ok c (sk_model_obs c) = true.
+Theorem C14_skolem_suite_model_glue : forall c, sk_spec_ok c (sk_model_obs c) = true.
 Proof. exact sk_spec_ok_model. Qed.
-Print Assumptions C14_skolem_suite_model.
+Print Assumptions C14_skolem_suite_model_glue.
 
 Theorem C14_skolem_safe_no_slash : forall i, safe i = true -> no47 i = true.
 Proof. exact safe_no47. Qed.
@@ -213,9 +228,9 @@ Print Assumptions C14_signature_renaming_invariant.
    satisfied by the model, and an accepted observation answers every == with
    true exactly when the contents at that moment are isomorphic, != with the negation. *)
 From RV Require Import Iso.History.
-Theorem C14_history_model : forall c, h_spec_ok c (h_model_obs c) = true.
+Theorem C14_history_model_glue : forall c, h_spec_ok c (h_model_obs c) = true.
 Proof. exact h_spec_ok_model. Qed.
-Print Assumptions C14_history_model.
+Print Assumptions C14_history_model_glue.
 
 Theorem C14_history_reading : forall c o,
   h_spec_ok c o = true -> answers (map (dedup triple_eqb) (h_graphs c)) (h_ops c) o.
@@ -239,11 +254,14 @@ Theorem C14_canonical_triples_relabels :
 Proof. exact canonical_triples_relabels. Qed.
 Print Assumptions C14_canonical_triples_relabels.
 
-(* SOUNDNESS at full strength: the modelled compare.isomorphic (and
-   IsomorphicGraph.__eq__) never answers True on non-isomorphic graphs - every
-   pair of graphs, any fuel, blank predicates included - under MA3 (a sum of
-   hashes determines the multiset of hashed strings) and an injective rendering
-   of canonical triples. *)
+(* SOUNDNESS under an IDEAL hash: for every pair of graphs, any fuel, blank
+   predicates included, the modelled compare.isomorphic (and
+   IsomorphicGraph.__eq__) never answers True on non-isomorphic graphs - PROVIDED
+   the hash is collision-free on sums (MA3: a sum of hash values determines the
+   multiset of hashed strings) and canonical triples render injectively.  MA3 is
+   an idealisation: it is satisfiable for hashfunc : str -> N (so the theorem is
+   not vacuous) but false of the real SHA-256 by counting; what it buys is that
+   a wrong True needs a hash collision, nothing else. *)
 Theorem C14_model_isomorphic_sound :
   forall (hashfunc : str -> N) n3 hexs decs (tstr : ctriple -> str),
   (forall l1 l2 : list str, sum_h hashfunc l1 = sum_h hashfunc l2 -> Permutation.Permutation l1 l2) ->
@@ -314,6 +332,13 @@ Proof.
 Qed.
 Print Assumptions C14_complete_discrete_partial.
 
+(* NOTE on the scope of the next theorem: it speaks of relabelled copies that
+   KEEP the order of triples and of set iteration.  A real relabelling never does
+   (Python's set order depends on the hashes of the labels), so this theorem does
+   not by itself give "equal canonical graphs for isomorphic inputs" for the
+   implementation: completeness of rdflib's canonicaliser rests on the
+   differential suites against the verified oracle.  What the theorem does show
+   is that labels enter the algorithm in no other way than through that order. *)
 (* LABEL INDEPENDENCE of the whole canonicaliser (refinement AND the
    individualisation search with its verified-automorphism pruning): a copy of a
    graph whose blank nodes are renamed one-to-one - keeping the order of triples
